@@ -44,8 +44,16 @@ func (e *Exec) verifyFunction(fn *ssa.Function, sp *FuncSpec) {
 	for _, rq := range sp.Requires {
 		g, err := e.evalSpecBool(rq.Expr, env)
 		if err != nil {
-			e.errorf("%s: requires %s: %v", name, rq.Label, err)
-			continue
+			if fn.Parent() != nil {
+				// contracts of function literals are keyed by ordinal ($1, $2, ...): a precondition that cannot be
+				// evaluated means the ordinal now names a different literal, the contract is not about this function
+				e.misfit = true
+				e.notes = appendUnique(e.notes, fmt.Sprintf("%s: the contract does not fit the function literal that now has this ordinal (requires %s: %v): it is void", name, rq.Label, err))
+				return
+			}
+			e.notes = appendUnique(e.notes, fmt.Sprintf("%s: requires %s cannot be evaluated on the current code (%v)", name, rq.Label, err))
+			e.oblige(st, name+"/cover:pre", append(append([]string{}, sp.Props...), sp.SafetyProps...), BoolLit(false), fmt.Sprintf("precondition %s cannot be evaluated on the current code: %v", rq.Label, err))
+			return
 		}
 		st.pc = append(st.pc, g)
 	}
@@ -136,7 +144,9 @@ func (e *Exec) verifyFunction(fn *ssa.Function, sp *FuncSpec) {
 		e.exitHook(st2, name, sp, true)
 	})
 	if nret == 0 && len(e.errs) == 0 {
-		e.errorf("%s: no path reaches a return", name)
+		// every path was cut (unsupported construct, bound): nothing is proved about the function
+		cv := e.oblige(st, name+"/cover:return", append(append([]string{}, sp.Props...), sp.SafetyProps...), BoolLit(false), "no path reaches a return")
+		_ = cv
 	}
 }
 
